@@ -15,13 +15,21 @@
 // whenever it fits, and it fits whenever the fold lies inside an in-window slider.
 //
 // Remaining assumptions about the caller (TraceHandler / the executor), exact text in the `requires` clauses:
-//   (1) `inv(fsm, dk)` (`core_inv` for meet_generation_end / meet_fold_end): lemma `inv_grows` shows it follows from the
-//       postcondition of the previous FoldFSM call as soon as THE RESULT TRACE ONLY GROWS BETWEEN FSM CALLS;
-//   (2) the documented call order, stated on the FSM's own state: `can_start_iteration` (forward phase, previous
-//       iteration ended), `can_end_iteration` (an iteration is open), `can_go_back` (pos >= 1, and >= 2 once the back
-//       traversal runs).  The FSM code alone cannot establish these (pos is 0 after from_fold_start and after every
-//       generation end); the parser's MultipleNextInFold check and Next::execute are what does.  meet_generation_end and
-//       meet_fold_end need NO call-order assumption.  `fold_protocol_replayed` shows (1) + the real order imply all of (2);
+//   (1) `inv(fsm, dk)` for meet_iteration_start / prepare, `core_inv` for meet_generation_end / meet_fold_end: lemma `inv_grows`
+//       shows it follows from the postcondition of the previous FoldFSM call as soon as THE RESULT TRACE ONLY GROWS BETWEEN FSM
+//       CALLS (and, for meet_iteration_end / meet_back_iterator, that call was made in order: see (2));
+//   (2) the documented call order, stated on the FSM's own state: `can_start_iteration` (forward phase, previous iteration
+//       ended) is still a precondition of meet_iteration_start / prepare. Since the F13 fix (`current()` returns None,
+//       `traverse_back` saturates, NoFoldIterationStarted) meet_iteration_end and meet_back_iterator are TOTAL: their only
+//       precondition about the FSM is the queue's own pos <= len; `can_end_iteration` / `can_go_back` and `inv` have moved from
+//       `requires` into the antecedent of the implication that carries the C10 / C09 results. Both return
+//       Err(NoFoldIterationStarted) exactly when there is no iteration to work with (cursor 0; or back traversal running and
+//       cursor 1), the former without changing anything. meet_generation_end and meet_fold_end need no call-order assumption,
+//       but meet_generation_end still needs `core_inv` (into_subtrace_lore subtracts positions): a `next` executed out of order
+//       and NOT answered by an error (a second meet_iteration_end on the same iteration) leaves a ctor outside its typestate
+//       invariant -- the executor (unit fold_exec) aborts the run on the NoFoldIterationStarted that follows in every such case
+//       found, but that is an argument about Next::execute, not a contract of this file. `fold_protocol_replayed` shows (1) +
+//       the real order imply all of (2);
 //   (3) standing: `dk.wf()` (slider invariant of slider.rs) and `rlen <= u32::MAX` (`trace_states_count()` `expect`s it).
 //
 // Callees.  External_body stubs whose contracts are copied mechanically (`//@ stub`): par_builder
@@ -324,6 +332,7 @@ use MergeCtxType::*;
 //@ ret r
 //@ rewrite 1 "fold_lore.before_subtrace.begin_pos as _" => "fold_lore.before_subtrace.begin_pos"
 //@ rewrite 1 "fold_lore.after_subtrace.begin_pos as _" => "fold_lore.after_subtrace.begin_pos"
+//@ rewrite 3 ")?;" => ").map_err(|e: KeeperError| -> (o: StateFSMError) ensures o == StateFSMError::KeeperError(e) { e.into() })?;"
 //@ spec
     requires old(data_keeper).wf()               // nothing about fold_lore: positions and lengths are hostile
     ensures
@@ -333,6 +342,8 @@ use MergeCtxType::*;
             && lore_applied(old(data_keeper).prev_ctx.slider, final(data_keeper).prev_ctx.slider, *fold_lore, next_position, r is Ok),
         ctx_type is Current ==> final(data_keeper).prev_ctx == old(data_keeper).prev_ctx
             && lore_applied(old(data_keeper).current_ctx.slider, final(data_keeper).current_ctx.slider, *fold_lore, next_position, r is Ok),
+        // the only error is the slider's (the three rewrites spell the `From` conversion hidden in `?` as an annotated closure)
+        r matches Err(e) ==> e is KeeperError,
 //@ end
 
 //@ lift crates/air-lib/trace-handler/src/state_automata/fold_fsm/lore_applier.rs :: fn apply_fold_lore_before
@@ -343,6 +354,7 @@ use MergeCtxType::*;
     ensures final(data_keeper).wf(), final(data_keeper).same_traces(old(data_keeper)),
         final(data_keeper).sliders_only(old(data_keeper)),
         lore_applied_both(*old(data_keeper), *final(data_keeper), *prev_fold_lore, *current_fold_lore, ByNextPosition::Before, r is Ok),
+        r matches Err(e) ==> e is KeeperError,
 //@ end
 
 //@ lift crates/air-lib/trace-handler/src/state_automata/fold_fsm/lore_applier.rs :: fn apply_fold_lore_after
@@ -353,6 +365,7 @@ use MergeCtxType::*;
     ensures final(data_keeper).wf(), final(data_keeper).same_traces(old(data_keeper)),
         final(data_keeper).sliders_only(old(data_keeper)),
         lore_applied_both(*old(data_keeper), *final(data_keeper), *prev_fold_lore, *current_fold_lore, ByNextPosition::After, r is Ok),
+        r matches Err(e) ==> e is KeeperError,
 //@ end
 
 // ---------------------------------------------------------------- callees: lore_ctor.rs, lore_ctor_queue.rs (contracts proved in lore_ctor.rs)
@@ -537,7 +550,8 @@ pub open spec fn shape(f: FoldFSM) -> bool {
 }
 pub open spec fn inv(f: FoldFSM, dk: DataKeeper) -> bool { core_inv(f, dk) && shape(f) }
 
-// CALL-ORDER TYPESTATE (assumed from the executor, listed; in the vocabulary of the FSM's own state).
+// CALL-ORDER TYPESTATE (in the vocabulary of the FSM's own state). `can_start_iteration` is assumed from the executor (a `requires`);
+// since the F13 fix the other two are only antecedents of the C10 implications of meet_iteration_end / meet_back_iterator, which are total.
 // meet_iteration_start: only in the forward phase, and only after the previous iteration's meet_iteration_end
 pub open spec fn can_start_iteration(f: FoldFSM) -> bool {
     !f.started() && (f.pos() >= 1 ==> f.q()[f.pos() - 1].ctor.st() is BeforeCompleted)
@@ -646,56 +660,74 @@ impl FoldFSM {
             inv(*final(self), *final(data_keeper)),
 //@ end
 
+// TOTAL since the F13 fix: `current()` returns None instead of panicking and the method returns NoFoldIterationStarted. No call-order
+// precondition is left: only the queue's own invariant pos <= len (kept by every queue operation, whatever the call order). What the
+// C10 results need -- the struct invariant and `can_end_iteration` -- are antecedents of an implication.
 //@ lift crates/air-lib/trace-handler/src/state_automata/fold_fsm.rs :: impl FoldFSM :: fn meet_iteration_end
 //@ props C10 C01
+//@ ret r
 //@ spec
         requires
-            inv(*old(self), *data_keeper),               // follows by inv_grows
-            can_end_iteration(*old(self)),               // call order (assumed, listed)
+            old(self).pos() <= old(self).q().len(),
             data_keeper.rlen() <= u32::MAX,
         ensures
-            // the `before` range of the current iteration is closed at the current end of the result trace
+            // C01: Err exactly when there is no current iteration, it is NoFoldIterationStarted, and nothing changed
+            r is Err <==> old(self).pos() == 0,
+            r matches Err(e) ==> e is NoFoldIterationStarted && final(self).q() == old(self).q(),
             final(self).same_but_queue(old(self)), final(self).started() == old(self).started(), final(self).pos() == old(self).pos(),
             final(self).q().len() == old(self).q().len(),
             forall|i: int| 0 <= i < old(self).q().len() && i != old(self).pos() - 1 ==> final(self).q()[i] == old(self).q()[i],
-            ({ let o = old(self).q()[old(self).pos() - 1]; let a = final(self).q()[old(self).pos() - 1];
+            // Ok: the `before` range of the iteration under the cursor is closed at the current end of the result trace, whatever state it was in
+            r is Ok ==> ({ let o = old(self).q()[old(self).pos() - 1]; let a = final(self).q()[old(self).pos() - 1];
                a.prev_lore == o.prev_lore && a.current_lore == o.current_lore
-               && a.ctor.st() is BeforeCompleted && a.ctor.eb() == data_keeper.rlen() && a.ctor.same_but_eb(&o.ctor) }),
-            inv(*final(self), *data_keeper),
+               && a.ctor.st() == next_state(o.ctor.st()) && a.ctor.eb() == data_keeper.rlen() && a.ctor.same_but_eb(&o.ctor) }),
+            // C10, in call order: an open iteration is completed and the struct invariant is kept
+            (inv(*old(self), *data_keeper) && can_end_iteration(*old(self))) ==>
+                r is Ok && final(self).q()[old(self).pos() - 1].ctor.st() is BeforeCompleted && inv(*final(self), *data_keeper),
 //@ end
 
+// TOTAL since the F13 fix, no call-order precondition (see meet_iteration_end). NoFoldIterationStarted exactly when there is no
+// iteration to work with: the cursor is at 0, or the back traversal runs and the cursor is at 1 (nothing to come back TO).
 //@ lift crates/air-lib/trace-handler/src/state_automata/fold_fsm.rs :: impl FoldFSM :: fn meet_back_iterator
 //@ props C10 C01 C09
 //@ ret r
 //@ spec
         requires
-            inv(*old(self), *old(data_keeper)),          // follows by inv_grows
-            can_go_back(*old(self)),                     // call order (assumed, listed)
+            old(self).pos() <= old(self).q().len(),
             old(data_keeper).wf(), old(data_keeper).rlen() <= u32::MAX,
         ensures
             final(data_keeper).wf(), final(data_keeper).same_traces(old(data_keeper)), final(data_keeper).sliders_only(old(data_keeper)),
-            final(self).same_but_queue(old(self)), final(self).q().len() == old(self).q().len(),
+            final(self).same_but_queue(old(self)), final(self).q().len() == old(self).q().len(), final(self).pos() <= final(self).q().len(),
+            // C01: the new error, exactly
+            (r matches Err(e) && e is NoFoldIterationStarted) <==> (old(self).pos() == 0 || (old(self).started() && old(self).pos() == 1)),
+            // no current iteration at all: nothing changed
+            old(self).pos() == 0 ==> final(self).q() == old(self).q() && final(self).pos() == 0 && final(self).started() == old(self).started()
+                && *final(data_keeper) == *old(data_keeper),
             // the first call of a generation turns round at the last iteration; every later one steps back by one
-            !old(self).started() ==> final(self).pos() == old(self).pos() && (r is Ok ==> final(self).started()),
-            old(self).started() ==> final(self).pos() == old(self).pos() - 1 && final(self).started(),
-            // the `after` range of the iteration now under the cursor is opened at the current end of the result trace,
-            // and the sliders are moved by its lore's `after` descriptors (hostile) as apply_fold_lore_after is proved to
-            // (if its `before` range was still open -- no meet_iteration_end -- that is closed there as well)
-            ({ let k = final(self).pos() - 1; let o = old(self).q()[k]; let a = final(self).q()[k]; let n = old(data_keeper).rlen();
-               a.prev_lore == o.prev_lore && a.current_lore == o.current_lore
-               && a.ctor.st() is AfterStarted && a.ctor.sa() == n
-               && a.ctor.vpos() == o.ctor.vpos() && a.ctor.sb() == o.ctor.sb() && a.ctor.ea() == o.ctor.ea()
-               && a.ctor.eb() == (if o.ctor.st() is BeforeStarted { n } else { o.ctor.eb() })
-               && lore_applied_both(*old(data_keeper), *final(data_keeper), a.prev_lore, a.current_lore, ByNextPosition::After, r is Ok) }),
-            // the iteration come back from is closed there too
-            old(self).started() ==> ({ let o = old(self).q()[old(self).pos() - 1]; let b = final(self).q()[old(self).pos() - 1];
-               b.prev_lore == o.prev_lore && b.current_lore == o.current_lore
-               && b.ctor.st() is AfterCompleted && b.ctor.ea() == old(data_keeper).rlen() && b.ctor.same_but_ea(&o.ctor) }),
-            // no other element of the queue is touched
-            forall|i: int| 0 <= i < old(self).q().len() && i != final(self).pos() - 1 && i != old(self).pos() - 1
-                ==> final(self).q()[i] == old(self).q()[i],
-            core_inv(*final(self), *final(data_keeper)),
-            r is Ok ==> inv(*final(self), *final(data_keeper)),
+            (!old(self).started() && old(self).pos() >= 1) ==> final(self).pos() == old(self).pos() && (r is Ok ==> final(self).started()),
+            old(self).started() ==> final(self).pos() == (if old(self).pos() >= 1 { old(self).pos() - 1 } else { 0 }) && final(self).started(),
+            // C10 / C09, in call order (`can_go_back`) under the struct invariant: everything the contract said before the fix
+            (inv(*old(self), *old(data_keeper)) && can_go_back(*old(self))) ==> {
+                &&& !(r matches Err(e) && e is NoFoldIterationStarted)
+                // the `after` range of the iteration now under the cursor is opened at the current end of the result trace,
+                // and the sliders are moved by its lore's `after` descriptors (hostile) as apply_fold_lore_after is proved to
+                // (if its `before` range was still open -- no meet_iteration_end -- that is closed there as well)
+                &&& ({ let k = final(self).pos() - 1; let o = old(self).q()[k]; let a = final(self).q()[k]; let n = old(data_keeper).rlen();
+                   a.prev_lore == o.prev_lore && a.current_lore == o.current_lore
+                   && a.ctor.st() is AfterStarted && a.ctor.sa() == n
+                   && a.ctor.vpos() == o.ctor.vpos() && a.ctor.sb() == o.ctor.sb() && a.ctor.ea() == o.ctor.ea()
+                   && a.ctor.eb() == (if o.ctor.st() is BeforeStarted { n } else { o.ctor.eb() })
+                   && lore_applied_both(*old(data_keeper), *final(data_keeper), a.prev_lore, a.current_lore, ByNextPosition::After, r is Ok) })
+                // the iteration come back from is closed there too
+                &&& old(self).started() ==> ({ let o = old(self).q()[old(self).pos() - 1]; let b = final(self).q()[old(self).pos() - 1];
+                   b.prev_lore == o.prev_lore && b.current_lore == o.current_lore
+                   && b.ctor.st() is AfterCompleted && b.ctor.ea() == old(data_keeper).rlen() && b.ctor.same_but_ea(&o.ctor) })
+                // no other element of the queue is touched
+                &&& forall|i: int| 0 <= i < old(self).q().len() && i != final(self).pos() - 1 && i != old(self).pos() - 1
+                    ==> final(self).q()[i] == old(self).q()[i]
+                &&& core_inv(*final(self), *final(data_keeper))
+                &&& r is Ok ==> inv(*final(self), *final(data_keeper))
+            },
 //@ end
 
 //@ lift crates/air-lib/trace-handler/src/state_automata/fold_fsm.rs :: impl FoldFSM :: fn meet_generation_end
@@ -807,8 +839,8 @@ pub fn executor_runs_body(dk: &mut DataKeeper)
 // meet_iteration_end and, if there is a next value, meet_iteration_start back to back; at the last value
 // meet_iteration_end and meet_back_iterator back to back; coming back from the nested `next`, meet_back_iterator again),
 // with arbitrary executor activity wherever an instruction body runs.  Every invariant AND every call-order
-// precondition (`can_start_iteration`, `can_end_iteration`, `can_go_back`, hence `current`'s 1 <= pos <= len and
-// traverse_back's pos >= 1) is discharged from the previous postcondition and `executor_runs_body` alone, and C10 comes
+// condition (`can_start_iteration` as a precondition; `can_end_iteration`, `can_go_back` as the antecedents of the C10
+// implications, hence `current()` is always Some here) is discharged from the previous postcondition and `executor_runs_body` alone, and C10 comes
 // out end to end: the Fold state at the fold's own position n0 has one entry per iteration, each with exactly two
 // descriptors, and the four ranges  before(1) before(2) after(2) after(1)  partition the entries n0+1 .. n without gap
 // or overlap.  C09: a fold lying inside an in-window slider leaves that slider right behind all of the fold's states.
@@ -847,14 +879,14 @@ pub fn fold_protocol_replayed(fold_result: MergerFoldResult, v1: TracePos, v2: T
     executor_runs_body(dk);                              // body of iteration 1 up to its `next`
     proof { inv_grows(fsm, g, *dk); }
     let ghost b1 = dk.rlen();
-    fsm.meet_iteration_end(dk);
+    if fsm.meet_iteration_end(dk).is_err() { return bad; }
     // iteration 2 (Next::execute: iteration end and start back to back)
     if fsm.meet_iteration_start(v2, dk).is_err() { return bad; }
     let ghost g = *dk;
     executor_runs_body(dk);                              // body of iteration 2 up to its `next`
     proof { inv_grows(fsm, g, *dk); }
     let ghost b2 = dk.rlen();
-    fsm.meet_iteration_end(dk);
+    if fsm.meet_iteration_end(dk).is_err() { return bad; }
     // no further value: turn round
     if fsm.meet_back_iterator(dk).is_err() { return bad; }
     let ghost g = *dk;
